@@ -4,6 +4,7 @@ import Drx.Spec.Compile
 import Drx.Spec.LingoRead
 import Drx.Spec.JsRead
 import Drx.Spec.LingoPrint
+import Drx.Spec.Supported
 namespace Drx.Drv.Lspec
 open Drx Drx.Drv Drx.Spec
 
@@ -191,6 +192,13 @@ def run : List String → Option String
     match Script.parse (← charsOfHex hscript) with
     | none => some "error bad-sexpr"
     | some s => some (hexOfChars (printLingoText s))
+  -- classes <hex handler sexpr> -> failure classes of C03 the handler body falls into (comma separated, sorted; "-" = Supported)
+  | ["classes", hh] => do
+    match Handler.parse (← charsOfHex hh) with
+    | none => some "error bad-sexpr"
+    | some h =>
+      let cs := (exitClasses h.body).toArray.qsort (· < ·) |>.toList
+      some (if cs.isEmpty then "-" else ",".intercalate cs)
   -- const <x> -> x (expected value of an observable the spec fixes, e.g. the number of raw jump pseudo-statements: 0)
   | ["const", x] => some x
   | _ => none
